@@ -38,6 +38,7 @@ type config struct {
 	Debug        string `json:"debug"` // none | backend | client | both
 	Loopback     bool   `json:"loopback"`
 	PageSize     int    `json:"page_size"`
+	Rotate       int    `json:"rotating_upload_ids"` // 0 stable ids; 1 a new id after every write; 2 and after every status query
 }
 
 func (c config) String() string {
@@ -49,6 +50,9 @@ func nolog(string, ...any) {}
 func build(c config) (top ociregistry.Interface, recd *rec.Recorder, closeAll func()) {
 	recd = rec.New(ocimem.New())
 	var reg ociregistry.Interface = recd.Interface()
+	if c.Rotate > 0 {
+		reg = stack.NewRotating(reg, c.Rotate == 2)
+	}
 	if c.Debug == "backend" || c.Debug == "both" {
 		reg = ocidebug.New(reg, nolog)
 	}
@@ -604,9 +608,14 @@ func main() {
 		rng := run.Rand(3, uint64(h))
 		bits := h % 16
 		c := config{OmitDigest: bits&1 != 0, OmitLink: bits&2 != 0, MaxPage: bits&4 != 0, NoSinglePost: bits&8 != 0,
-			Hops: 1 + (h/16)%2, Debug: []string{"none", "backend", "client", "both"}[(h/32)%4], Loopback: h%23 == 5, PageSize: []int{1, 2, 3, 1000}[rng.IntN(4)]}
+			Hops: 1 + (h/16)%2, Debug: []string{"none", "backend", "client", "both"}[(h/32)%4], Loopback: h%23 == 5, PageSize: []int{1, 2, 3, 1000}[rng.IntN(4)], Rotate: []int{0, 0, 1, 2}[(h/7)%4]}
 		top, recd, closeAll := build(c)
-		w := &world{run: run, cfg: c, a: model.NewEnv(ocimem.New()), b: model.NewEnv(top), recd: recd, m: model.New(false)}
+		var direct ociregistry.Interface = ocimem.New()
+		if c.Rotate > 0 {
+			direct = stack.NewRotating(direct, c.Rotate == 2)
+			run.Count("histories_over_rotating_upload_ids", 1)
+		}
+		w := &world{run: run, cfg: c, a: model.NewEnv(direct), b: model.NewEnv(top), recd: recd, m: model.New(false)}
 		uu := *u
 		uu.Manifests = nil
 		run.Eval(1)
